@@ -40,6 +40,9 @@ def rand_request(rng, cols=COLS):
     mean = [rng.choice(cols) for _ in range(rng.randint(0, 3))]
     var = [rng.choice(cols) for _ in range(rng.randint(0, 3))]
     cov = [tuple(rng.sample(cols, 2)) for _ in range(rng.randint(0, 3))]
+    if rng.random() < 0.15:      # a column paired with itself is a legitimate request: its covariance is its variance
+        c = rng.choice(cols)
+        cov.append((c, c))
     has_count = rng.random() < 0.6
     if not (mean or var or cov or has_count):
         has_count = True
@@ -240,7 +243,40 @@ def check_backend(case):
     return fails
 
 
+def reread_case(seed):
+    """the same frame object read twice with the same request, its contents changed in place in between: the second
+    read gives the statistics of the CURRENT rows"""
+    import numpy as np
+    import pandas as pd
+    import tea_tasting.aggr as A
+    r = np.random.default_rng(seed)
+    n = 40
+    df = pd.DataFrame({"variant": r.integers(0, 2, n), "x": r.normal(5, 2, n).round(3), "y": r.normal(1, 1, n).round(3)})
+    req = dict(has_count=True, mean_cols=["x", "y"], var_cols=["x"], cov_cols=[("x", "y")])
+    fails = []
+    group = "variant" if seed % 2 == 0 else None      # the SAME request every time, nothing else read in between
+    for step in range(3):
+        got = A.read_aggregates(df, group, **req)
+        g = got if group is None else got[0]
+        rows = df if group is None else df[df["variant"] == 0]
+        want_mean = {"x": float(rows["x"].mean()), "y": float(rows["y"].mean())}
+        want_var = float(rows["x"].var(ddof=1))
+        if (g.count_ != len(rows) or any(abs(g.mean_[c] - want_mean[c]) > 1e-9 * max(1.0, abs(want_mean[c])) for c in want_mean)
+                or abs(g.var_["x"] - want_var) > 1e-9 * max(1.0, want_var)):
+            fails.append(f"step {step} (group={group}): re-reading the modified frame gives mean {g.mean_}, var {g.var_}, count {g.count_}; "
+                         f"its current rows have mean {want_mean}, var {want_var}, count {len(rows)}")
+        df.loc[df.index[: n // 2], "x"] = df.loc[df.index[: n // 2], "x"] * 3.0 + 1.0
+        df["y"] = df["y"] - 2.0
+    return fails
+
+
 def oracle(ctx, deep=False):
+    for _ in range(ctx.n(3, 30)):
+        seed = ctx.rng.randint(0, 10**6)
+        ctx.evaluations += 1
+        ctx.count("oracle:re-read-after-in-place-change")
+        for f in reread_case(seed)[:1]:
+            ctx.violations.append({"what": "read_aggregates returns stale statistics", "detail": f, "input": {"reread": True, "seed": seed}})
     for i in range(ctx.n(150, 4000) * (2 if deep else 1)):
         id_kind = ctx.rng.choice(["int", "int", "str", "bool"])
         case = {"backend": ctx.rng.choice(B.KINDS), "id_kind": id_kind,
@@ -310,6 +346,9 @@ def large_table_probe(kind, n, seed, tries=3):
 
 
 def replay(ctx, rp):
+    if isinstance(rp.get("input"), dict) and rp["input"].get("reread"):
+        fails = reread_case(rp["input"]["seed"])
+        return {"fails": bool(fails), "failures": fails}
     if rp["input"].get("large_table"):
         fails = large_table_probe(rp["input"]["backend"], rp["input"]["rows"], rp["input"]["seed"])
         return {"fails": bool(fails), "failures": fails}
